@@ -13,6 +13,7 @@ from __future__ import annotations
 from ..facts import AnalysisError
 from ..terms import const, contains, show, strip_sites
 from ..util import NoInline, P, calls_to, engine, implied_atoms, loc, param_at
+from .derived import cache_coherence
 from .ordering import (arming, cancel_on_removal, every_removal_reported, PROTO, TS, Ctx, atomic_notifications, expiry_once, reboot_before_entries, reject_before_record)
 
 DISC = "sd.ServiceDiscover"
@@ -23,6 +24,8 @@ STOPPED = "sd.ClientServiceListener.service_stopped"
 
 
 def check(run, prog, tier):
+    # the listener view is derived from the live store and filter tables
+    cache_coherence(run, prog, "A4", ['sd.ServiceDiscover', 'sd.TimedStore'])
     run.explanation = (
         "The listener history equals the presence history of found_services.store at every instant iff every "
         "mutation of the store invokes the matching notification in the same synchronous step and nothing else "
